@@ -420,11 +420,23 @@ class DocSim(core.Engine):
                         op = None
                     except core.HarnessError:
                         raise
-                    except Exception:
-                        if not res.foreign:
+                    except docexec.ARITH_ERRORS:
+                        op = None
+                    except Exception as e:
+                        if res.foreign:
+                            op = None      # the state is already known to be corrupt (another property's clause fired)
+                            break
+                        import traceback
+                        tb = traceback.extract_tb(e.__traceback__)
+                        if not tb or not os.path.realpath(tb[-1].filename).startswith(os.path.realpath(core.REPO_DIR)):
                             raise
-                        op = None      # the state is already known to be corrupt (another property's clause fired)
-                        break
+                        # the public read API of a model reachable from the root raised inside the library: the
+                        # document state is unreadable although no invariant has fired; reported for the running check
+                        res.violations = [Violation(prop, 'state_unreadable', step,
+                                                    f'enumerating the document for the next operation raised {type(e).__name__}: {e} '
+                                                    f'({tb[-1].name} in {os.path.basename(tb[-1].filename)})')]
+                        res.history_sig = core.sha(' '.join(sig))
+                        return res
                     if op is not None:
                         break
                 if op is None:
